@@ -125,6 +125,11 @@ class _Sock:
             raise ConnectionResetError(104, "Connection reset by peer")
         return r
 
+    def recv_into(self, buf, nbytes=0):
+        r = self.recv(nbytes or len(buf))
+        buf[: len(r)] = r
+        return len(r)
+
     def sendall(self, data):
         self.o.write(data)
 
